@@ -815,8 +815,11 @@ impl<'g, 's> LRTable<'g, 's> {
                                         (Associativity::Left, Associativity::None)
                                         | (_, Associativity::Left) => {
                                             // Override SHIFT with this REDUCE
-                                            assert!(actions.len() == 1);
-                                            actions.pop();
+                                            // Reductions kept alongside the SHIFT so far
+                                            // stay; REDUCE/REDUCE rules below settle them.
+                                            actions.retain(|x| {
+                                                !matches!(x, Action::Shift(_) | Action::Accept)
+                                            });
                                         }
                                         (Associativity::Right, Associativity::None)
                                         | (_, Associativity::Right) => {
@@ -845,8 +848,11 @@ impl<'g, 's> LRTable<'g, 's> {
                                 Ordering::Greater => {
                                     // This item operation priority is higher =>
                                     // override with reduce
-                                    assert!(actions.len() == 1);
-                                    actions.pop();
+                                    // Reductions kept alongside the SHIFT so far have
+                                    // its priority; REDUCE/REDUCE rules below replace them.
+                                    actions.retain(|x| {
+                                        !matches!(x, Action::Shift(_) | Action::Accept)
+                                    });
                                 }
                             }
                         }
